@@ -11,7 +11,9 @@
 (*                   a handle a transition consumed;                       *)
 (*   MustCompile     it needs only rights the state has and the documented *)
 (*                   API promises it;                                      *)
-(*   Free            neither (recorded, never judged).                     *)
+(*   Free            neither: the compiler's verdict is recorded, not      *)
+(*                   judged; but a Free program that compiles is run, and  *)
+(*                   whatever the compiler lets through must not fault.    *)
 (* TableSound ties the table to the state machine of Protected.tla: in     *)
 (* every reachable state a MustCompile operation is offered by the model   *)
 (* and a MustNotCompile one is not.  The same for the stream modes.        *)
